@@ -200,7 +200,7 @@ def tlc(module, cfg=None, wd=None, workers=None, simulate=None, depth=None, env=
     r.returncode = rc
     r.log = log
     tagset = set(tags)
-    cov_re = re.compile(r"^<(\w+) line \d+, col \d+ to line \d+, col \d+ of module (\w+)>: (\d+):(\d+)")
+    cov_re = re.compile(r"^<(\w+) line \d+, col \d+ to line \d+, col \d+ of module (\w+)(?: \([\d ]+\))?>: (\d+):(\d+)")
     err_lines = []
     in_err = False
     with open(log, encoding="utf-8", errors="replace") as lf:
@@ -286,7 +286,7 @@ class Verdicts:
     def add(self, signature, what, replay):
         """signature: string computed from the *case*; replay: JSON-able object to reproduce."""
         for k in self.known:
-            if k["signature"] == signature:
+            if k.get("signature") == signature or (k.get("signature_re") and re.match(k["signature_re"], signature)):
                 self.known_hits[k["id"]] = self.known_hits.get(k["id"], 0) + 1
                 self.known_examples.setdefault(k["id"], replay)
                 return "known"
@@ -298,7 +298,7 @@ class Verdicts:
         for k in self.known:
             if k["id"] in self.known_hits:
                 print("KNOWN-FINDING: property=%s %s [%s; signature %s; hit %d times in this run]" % (
-                    self.pid, k["what_fails"], k["id"], k["signature"], self.known_hits[k["id"]]))
+                    self.pid, k["what_fails"], k["id"], k.get("signature") or k.get("signature_re"), self.known_hits[k["id"]]))
         if not self.violations:
             return 0
         d = os.path.join(ROOT, "replays", self.pid)
